@@ -276,7 +276,8 @@ func c13Profiles(tier Tier) []*explore.Profile {
 			}
 			return e
 		}}
-		p := &explore.Profile{Name: name, EnvCfg: cfg, Seeds: seedsOf(seeds...), Depth: depth, Deadline: tierDeadline(tier), Menu: menu, WithGhost: true}
+		p := &explore.Profile{Name: name, EnvCfg: cfg, Seeds: seedsOf(seeds...), Depth: depth, Deadline: tierDeadline(tier), Menu: menu, WithGhost: true,
+			ContinueRoots: 24, ContinueDepth: 3} // a narrow beam: every transition costs a dozen executions here
 		{
 			e0 := h.fresh()
 			for i, sd := range seeds {
